@@ -413,6 +413,10 @@ type RefTranslator struct {
 	SA map[string]string // search-attribute key mapping (nil = none)
 	// Hits counts translated occurrences by category.
 	NSHits, SAHits int
+	// TolerateUndecodable: an event blob that cannot be decoded is left as it is and counted in Undecodable instead of
+	// being reported as an error (nothing in it can be translated; everything around it still is)
+	TolerateUndecodable bool
+	Undecodable         int
 }
 
 // Translate rewrites m in place following the reference rules and returns whether anything matched.
@@ -463,7 +467,9 @@ func (r *RefTranslator) Translate(m protoreflect.Message) (bool, error) {
 				blob := bm.Interface().(*commonpb.DataBlob)
 				events, err := DecodeEvents(blob)
 				if err != nil {
-					if firstErr == nil {
+					if r.TolerateUndecodable {
+						r.Undecodable++
+					} else if firstErr == nil {
 						firstErr = err
 					}
 					return nil
@@ -872,10 +878,29 @@ func ReencodeBlobsAsJSON(m protoreflect.Message) int {
 // with or without an encoding type) at position pos%(len+1): a page of raw history that happens to be empty. It returns
 // the number of blobs inserted.
 func AddEmptyListBlobs(m protoreflect.Message, pos int, typed bool) (n int) {
+	return addListBlobs(m, pos, func() *commonpb.DataBlob {
+		empty := &commonpb.DataBlob{}
+		if typed {
+			empty.EncodingType = enumspb.ENCODING_TYPE_PROTO3
+		}
+		return empty
+	})
+}
+
+// AddGarbageListBlobs inserts, into every repeated event-blob field that holds at least one blob, a blob whose bytes are
+// not a history batch at all (it cannot be decoded, so nothing in it can be translated or inspected) at position
+// pos%(len+1). It returns the number of blobs inserted.
+func AddGarbageListBlobs(m protoreflect.Message, pos int) int {
+	return addListBlobs(m, pos, func() *commonpb.DataBlob {
+		return &commonpb.DataBlob{EncodingType: enumspb.ENCODING_TYPE_PROTO3, Data: []byte("\x0a\x05\xff\xfe\xfd\xfc\xfb-not-a-history-batch")}
+	})
+}
+
+func addListBlobs(m protoreflect.Message, pos int, mk func() *commonpb.DataBlob) (n int) {
 	m.Range(func(fd protoreflect.FieldDescriptor, v protoreflect.Value) bool {
 		if fd.IsMap() {
 			if fd.MapValue().Message() != nil {
-				v.Map().Range(func(_ protoreflect.MapKey, mv protoreflect.Value) bool { n += AddEmptyListBlobs(mv.Message(), pos, typed); return true })
+				v.Map().Range(func(_ protoreflect.MapKey, mv protoreflect.Value) bool { n += addListBlobs(mv.Message(), pos, mk); return true })
 			}
 			return true
 		}
@@ -886,10 +911,7 @@ func AddEmptyListBlobs(m protoreflect.Message, pos int, typed bool) (n int) {
 			if fd.IsList() && EventBlobFields[string(fd.FullName())] && v.List().Len() > 0 {
 				l := v.List()
 				at := pos % (l.Len() + 1)
-				empty := &commonpb.DataBlob{}
-				if typed {
-					empty.EncodingType = enumspb.ENCODING_TYPE_PROTO3
-				}
+				empty := mk()
 				// append, then rotate into place
 				l.Append(protoreflect.ValueOfMessage(empty.ProtoReflect()))
 				for i := l.Len() - 1; i > at; i-- {
@@ -904,10 +926,10 @@ func AddEmptyListBlobs(m protoreflect.Message, pos int, typed bool) (n int) {
 		}
 		if fd.IsList() {
 			for i := 0; i < v.List().Len(); i++ {
-				n += AddEmptyListBlobs(v.List().Get(i).Message(), pos, typed)
+				n += addListBlobs(v.List().Get(i).Message(), pos, mk)
 			}
 		} else {
-			n += AddEmptyListBlobs(v.Message(), pos, typed)
+			n += addListBlobs(v.Message(), pos, mk)
 		}
 		return true
 	})
